@@ -439,7 +439,75 @@ def r16_6(ctx):
             ctx.decide('R16.6', MOD + '.NullOperator._transpose', src(c), ok or None, c, 'shape swapped')
 
 
+def r16_7(ctx):
+    """The work buffers of _apply_kronecker_linops receive `ops[i].dot(...)` (floating point) in every sweep: they are
+    allocated as float arrays of the argument's SHAPE, never as copies / `_like` of the argument (an integer or bool
+    right-hand side would give integer buffers and every sweep would truncate)."""
+    f = ctx.prog.func('pyiga.kronecker._apply_kronecker_linops')
+    param = f.node.args.args[1].arg if len(f.node.args.args) > 1 else 'x'
+    # buffers: names that are targets of a slice store `q[...] = ....dot(...)` (directly or after a swap)
+    bufs = set()
+    for s_ in ast.walk(f.node):
+        if isinstance(s_, ast.Assign) and isinstance(s_.targets[0], ast.Subscript) and isinstance(s_.targets[0].value, ast.Name) \
+                and any(isinstance(c, ast.Call) and isinstance(c.func, ast.Attribute) and c.func.attr == 'dot' for c in ast.walk(s_.value)) \
+                or (isinstance(s_, ast.Assign) and isinstance(s_.targets[0], ast.Subscript) and isinstance(s_.targets[0].value, ast.Name)
+                    and isinstance(s_.value, ast.Attribute) and s_.value.attr == 'T'):
+            bufs.add(s_.targets[0].value.id)
+    for s_ in ast.walk(f.node):        # q0, q1 = q1, q0
+        if isinstance(s_, ast.Assign) and isinstance(s_.targets[0], ast.Tuple) and isinstance(s_.value, ast.Tuple):
+            names = {x.id for x in s_.targets[0].elts if isinstance(x, ast.Name)} | {x.id for x in s_.value.elts if isinstance(x, ast.Name)}
+            if names & bufs:
+                bufs |= names
+    n = 0
+    for s_ in own_nodes(f.node):
+        if isinstance(s_, ast.Assign) and len(s_.targets) == 1 and isinstance(s_.targets[0], ast.Name) and s_.targets[0].id in bufs \
+                and isinstance(s_.value, ast.Call):
+            nm = call_name(s_.value) or ''
+            if nm.split('.')[-1] in ('reshape', 'resize'):
+                continue
+            n += 1
+            dt = kwarg(s_.value, 'dtype', 99)
+            follows = nm in ('np.array', 'np.asarray', 'np.copy', 'np.asfortranarray', 'np.ascontiguousarray') or nm.endswith('_like') \
+                or (dt is not None and param in src(dt)) or (isinstance(s_.value.func, ast.Attribute) and s_.value.func.attr in ('copy', 'astype') and param in src(s_.value.func.value))
+            float_alloc = nm in ('np.empty', 'np.zeros') and (dt is None or src(dt) in ('float', 'np.float64', 'np.double'))
+            ctx.decide('R16.7', f.qual, src(s_), True if float_alloc else (False if follows else None), s_,
+                       'work buffer allocated as a float array of the argument\'s shape' if float_alloc else
+                       'the work buffer takes the dtype of the argument: for an integer (or bool) right-hand side the results of ops[i].dot(...) '
+                       'are truncated when they are stored, so the operator no longer equals kron(A, B, ...) @ x', definite=True)
+    ctx.floor('R16.7', 'work buffer allocations in _apply_kronecker_linops', n, 2)
+
+
+def r16_8(ctx):
+    """(a) make_solver: a Cholesky factorisation is used only when the caller promised positive definiteness (spd); for a
+    matrix that is merely symmetric (symmetric=True) it raises LinAlgError although the sparse branch solves the same system.
+    (b) DiagonalOperator accepts a diagonal of length 1: np.squeeze without an axis turns a one-element vector into a 0-d array."""
+    ms = ctx.prog.func(MOD + '.make_solver')
+    for c in ast.walk(ms.node):
+        if isinstance(c, ast.Call) and (call_name(c) or '').split('.')[-1] == 'cho_factor':
+            facts = guards.dominating_facts(c)
+            under_spd = any(t_.replace(' ', '') == 'spd' and p_ for (t_, p_, _n) in facts)
+            under_sym = any(t_.replace(' ', '') == 'symmetric' and p_ for (t_, p_, _n) in facts)
+            ctx.decide('R16.8', ms.qual, src(c)[:80], True if under_spd else (False if under_sym else None), c,
+                       'Cholesky only for matrices declared positive definite' if under_spd else
+                       'the dense branch factorises every SYMMETRIC matrix by Cholesky: a symmetric indefinite matrix passed with symmetric=True '
+                       '(allowed by the docstring, handled by the sparse branch) raises LinAlgError instead of being solved', definite=True)
+    do = ctx.prog.func(MOD + '.DiagonalOperator.__init__')
+    sq = [c for c in ast.walk(do.node) if isinstance(c, ast.Call) and call_name(c) == 'np.squeeze' and kwarg(c, 'axis', 1) is None]
+    asserts_1d = any(isinstance(a, ast.Assert) and 'ndim==1' in src(a.test).replace(' ', '') for a in ast.walk(do.node))
+    handles0 = any(isinstance(c, ast.Call) and (call_name(c) or '').split('.')[-1] in ('atleast_1d', 'ravel', 'reshape') for c in ast.walk(do.node)) \
+        or 'ndim==0' in src(do.node).replace(' ', '')
+    if sq and asserts_1d:
+        ctx.decide('R16.8', do.qual, src(sq[0]), True if handles0 else False, sq[0],
+                   'a one-element diagonal stays one-dimensional' if handles0 else
+                   'np.squeeze removes EVERY axis of length 1: a diagonal of length 1 becomes 0-dimensional and the following `ndim == 1` '
+                   'assertion rejects it (DiagonalOperator([2.0]); inner_products / integrate for degree 0 with a single span)', definite=True)
+    else:
+        ctx.met('R16.8', do.qual, 'diagonal kept as a vector', do.node)
+
+
 def run(ctx):
+    r16_8(ctx)
+    r16_7(ctx)
     r16_1(ctx)
     r16_2(ctx)
     r16_3(ctx)
